@@ -44,7 +44,7 @@ def plan_of(sslopt, env=None, hostname="url-host.test"):
         os.environ["WEBSOCKET_CLIENT_CA_BUNDLE"] = env
     try:
         try:
-            _http._ssl_socket("rawsock", dict(sslopt), hostname)
+            _http._ssl_socket("rawsock", sslopt if _PASS_SAME else dict(sslopt), hostname)
         except Exception as e:
             return {"error": type(e).__name__}
     finally:
@@ -57,6 +57,19 @@ def plan_of(sslopt, env=None, hostname="url-host.test"):
     c = wrapped[-1]
     return {"verify_mode": int(c.verify_mode), "check_hostname": bool(c.check_hostname), "server_hostname": c.wrap_kw.get("server_hostname"),
             "default_certs": c.loaded_default, "locations": c.loaded_locations}
+
+
+def plan_of_shared(sslopt, hostname):
+    """like plan_of, but hands the caller's dict itself to the library (plan_of passes a copy)"""
+    global _PASS_SAME
+    _PASS_SAME = True
+    try:
+        return plan_of(sslopt, hostname=hostname)
+    finally:
+        _PASS_SAME = False
+
+
+_PASS_SAME = False
 
 
 def run(ctx):
@@ -102,6 +115,19 @@ def run(ctx):
             T.fail("spec", {"first": str(first), "then": str(second)}, "the second connection is fully verified", str(got),
                    {"site": "_ssl_socket", "cls": "relaxation-leaks-across-connections"},
                    what="a relaxed option of an earlier connection weakened a later connection that did not ask for it")
+    # one sslopt dict shared by connections to DIFFERENT hosts (a redirect, a reused WebSocket, an application-wide dict): each peer is
+    # checked against its own name, and the caller's dict is left as it was
+    for shared0 in ({}, {"ca_certs": "/x/ca.pem"}, {"check_hostname": True}):
+        shared = dict(shared0)
+        plans = []
+        for hostname in ("a.test", "b.test", "10.2.3.4", "a.test"):
+            plans.append((hostname, plan_of_shared(shared, hostname)))
+        T.case(("shared-dict", str(shared0)), bucket="direct", sample={"sslopt": str(shared0), "plans": str(plans)[:200]})
+        bad = [(h, p_) for h, p_ in plans if p_.get("server_hostname") != h or p_.get("check_hostname") is not True]
+        if bad or shared != shared0:
+            T.fail("spec", {"kind": "shared-dict", "sslopt": str(shared0)}, "every connection verified against its own host name; the caller's dict unchanged",
+                   f"{bad[:2]} dict afterwards: {shared}", {"site": "_ssl_socket", "cls": "host-name-sticks-to-shared-options"},
+                   what="with one sslopt dict used for several hosts a later peer was checked against an earlier host's name (or the dict was modified)")
     got = plan_of({"cert_reqs": ssl.CERT_NONE})
     T.case(("single", "CERT_NONE"), bucket="direct", sample={"sslopt": "CERT_NONE", "plan": got})
     if got.get("verify_mode") != int(ssl.CERT_NONE):
